@@ -125,6 +125,8 @@ Inductive cpc :=
 | CAlloc (c : nat) (i : Z)                (* has the conn and an index; before store ("before-store") *)
 | CStored (c : nat) (i : Z)               (* registered; first select *)
 | CEnq (c : nat) (i : Z)                  (* request handed to Send; second select *)
+| CDirect                                 (* inside the Transport of rpc/http, rpc/http/fasthttp or rpc/mock: no pending
+                                             table; the call waits for the server with its context *)
 | CRet (r : result)                       (* conn.Transport returned; deferred function pending *)
 | CDone (r : result).
 
@@ -155,6 +157,7 @@ Inductive label :=
 | LBegin (k : nat) | LGetConn (k : nat) | LDial (k : nat) | LDialFail (k : nat) | LStore (k : nat)
 | LEnqueue (k : nat) | LTake (k : nat) | LCancelDel (k : nat) | LEnd (k : nat)
 | LFire (k : nat) | LUserCancel (k : nat)
+| LDirectBegin (k : nat) | LDirectRet (k : nat) (r : result) | LDirectCancel (k : nat)
 | LSendOk (c : nat) | LSendFail (c : nat) | LSendCtx (c : nat)
 | LRecvPoll (c : nat) | LRecvCtx (c : nat) | LRecvReply (c : nat) (n : nat) | LRecvFail (c : nat)
 | LOnExit (w : who) | LCloseSock (w : who) | LCleanTake (w : who) | LCleanDone (w : who)
@@ -383,6 +386,25 @@ Definition step (g : cfg) (st : state) (l : label) : option state :=
   | LUserCancel k =>
       match nth_error (callers st) k with
       | Some cl => if started (pc cl) then Some (put_caller k (with_cancelled cl) st) else None
+      | None => None end
+  | LDirectBegin k =>                   (* c.transports[name] is http / fasthttp / mock: Transport(ctx, request) entered *)
+      match nth_error (callers st) k with
+      | Some cl => match pc cl with
+                   | CGet => Some (put_caller k (with_pc CDirect cl) st)
+                   | _ => None end
+      | None => None end
+  | LDirectRet k r =>                   (* the server's response, or an error of the request (environment) *)
+      match nth_error (callers st) k with
+      | Some cl => match pc cl, r with
+                   | CDirect, RCancel => None
+                   | CDirect, _ => Some (put_caller k (with_pc (CRet r) cl) st)
+                   | _, _ => None end
+      | None => None end
+  | LDirectCancel k =>                  (* the transport honours ctx.Done() *)
+      match nth_error (callers st) k with
+      | Some cl => match pc cl, cancelled cl with
+                   | CDirect, true => Some (put_caller k (with_pc (CRet RCancel) cl) st)
+                   | _, _ => None end
       | None => None end
   | LSendOk c =>
       match nth_error (conns st) c with
